@@ -98,6 +98,7 @@ struct Snapshot { std::vector<uint8_t> bytes; bool active; int state; std::vecto
 struct Msg { int kind; int dest; int expect_active; };   // kind: 0 TRANS, 1 ENTER, 2 EXIT
 
 extern const SutInfo* g_info;
+extern int g_case_vlog;            // plan outcomes are observed through verbose method records in this execution
 extern int g_logger_mode;          // ExecMode::logger_mode of the execution in progress
 
 // monitors (sim_mon.cpp)
